@@ -18,20 +18,25 @@ import (
 type fnKind int
 
 const (
-	fkBool  fnKind = iota // bool
-	fkInt                 // Z, Go integer type ity
-	fkBytes               // list byte
-	fkInts                // list Z (slice of a non-byte integer type ity)
-	fkErr                 // bool: true = non-nil error
-	fkNil                 // the untyped nil
-	fkStack               // list bytes: a [][]byte, in Go order (funcs_interp.go)
-	fkNum                 // Z: a *scriptNumber (funcs_interp.go)
-	fkCfg                 // bool: the interface config, true = afterGenesisConfig (funcs_interp.go)
+	fkBool     fnKind = iota // bool
+	fkInt                    // Z, Go integer type ity
+	fkBytes                  // list byte
+	fkInts                   // list Z (slice of a non-byte integer type ity)
+	fkErr                    // bool: true = non-nil error
+	fkNil                    // the untyped nil
+	fkStack                  // list bytes: a [][]byte, in Go order (funcs_interp.go)
+	fkNum                    // Z: a *scriptNumber (funcs_interp.go)
+	fkCfg                    // bool: the interface config, true = afterGenesisConfig (funcs_interp.go)
+	fkOptBytes               // option bytes: a *bscript.Script (funcs_tx.go)
+	fkNilBytes               // option bytes: a []byte parameter that is compared with nil (funcs_tx.go)
+	fkPtr                    // option go_<sname>: a pointer to a struct of package bt (funcs_tx.go)
+	fkPtrs                   // list (option go_<sname>): a slice of such pointers (funcs_tx.go)
 )
 
 type fnType struct {
-	k   fnKind
-	ity string
+	k     fnKind
+	ity   string
+	sname string // fkPtr, fkPtrs: the struct
 }
 
 func (ty fnType) coq() string {
@@ -50,6 +55,14 @@ func (ty fnType) coq() string {
 		return "Z"
 	case fkCfg:
 		return "bool"
+	case fkOptBytes, fkNilBytes:
+		return "option bytes"
+	case fkPtr:
+		fnStructsUsed[ty.sname] = true
+		return "option go_" + ty.sname
+	case fkPtrs:
+		fnStructsUsed[ty.sname] = true
+		return "list (option go_" + ty.sname + ")"
 	}
 	return "?"
 }
@@ -75,26 +88,28 @@ type fnVal struct {
 }
 
 type fnTr struct {
-	pkg     *fnPkg
-	spec    fnSpec
-	vars    map[interface{}]*fnVar // types.Object (locals, parameters) or string (declared field paths)
-	ld      *fnLoader
-	state   []string               // the declared field paths the function may write, in order (spec.State)
-	dead    map[int]bool           // *scriptNumber objects that were changed in place: a variable still pointing to one is unusable
-	ncell   int
-	noRes   bool                   // the Go function has no results
-	erased  map[string]bool        // the debugger callbacks of the stack whose calls were left out
-	args    []fnArg                // the parameters of the printed definition, in order
-	rootIdx map[string]int         // struct / pointer parameters: name -> position (-1 = receiver)
-	errNil  map[interface{}]bool   // error variables known to be nil on the current path
-	names   map[string]int
-	objs    map[types.Object]string // the Coq name of a Go variable, fixed at its first translation
-	tmp     int
-	results []fnType
-	ret     func(s string) string // the M-term that returns the pure result term s at the current nesting level
-	brk     func() string
-	cont    func() string
-	ind     int
+	pkg        *fnPkg
+	spec       fnSpec
+	vars       map[interface{}]*fnVar // types.Object (locals, parameters) or string (declared field paths)
+	ld         *fnLoader
+	state      []string     // the declared field paths the function may write, in order (spec.State)
+	dead       map[int]bool // *scriptNumber objects that were changed in place: a variable still pointing to one is unusable
+	ncell      int
+	noRes      bool                 // the Go function has no results
+	erased     map[string]bool      // the debugger callbacks of the stack whose calls were left out
+	args       []fnArg              // the parameters of the printed definition, in order
+	rootIdx    map[string]int       // struct / pointer parameters: name -> position (-1 = receiver)
+	errNil     map[interface{}]bool // error variables known to be nil on the current path
+	names      map[string]int
+	objs       map[types.Object]string // the Coq name of a Go variable, fixed at its first translation
+	tmp        int
+	results    []fnType
+	inSelector int                   // > 0 while the base of a field selection is read (funcs_tx.go)
+	namedRes   []types.Object        // named results, in order (funcs_tx.go)
+	ret        func(s string) string // the M-term that returns the pure result term s at the current nesting level
+	brk        func() string
+	cont       func() string
+	ind        int
 }
 
 func (t *fnTr) fail(n ast.Node, format string, a ...interface{}) {
@@ -140,6 +155,9 @@ func fnClassify(ty types.Type) (fnType, bool) {
 		return fnType{k: fkErr}, true
 	}
 	if k, ok := fnClassifyInterp(ty); ok {
+		return k, true
+	}
+	if k, ok := fnClassifyTx(ty); ok {
 		return k, true
 	}
 	switch u := ty.Underlying().(type) {
@@ -259,6 +277,8 @@ func (t *fnTr) coerce(n ast.Node, v fnVal, want fnType) fnVal {
 			return fnVal{s: "[]", pure: true, ty: want}
 		case fkNum:
 			return fnVal{s: "sn_nil", pure: true, ty: want, cells: []int{t.newCell()}}
+		case fkOptBytes, fkPtr:
+			return fnVal{s: "None", pure: true, ty: want}
 		}
 		t.fail(n, "nil used as %s", want.coq())
 	}
@@ -293,6 +313,18 @@ func (t *fnTr) fieldPath(e ast.Expr) (string, bool) {
 
 func (t *fnTr) varVal(n ast.Node, v *fnVar, key interface{}) fnVal {
 	r := fnVal{s: v.name, pure: true, ty: v.ty}
+	if v.ty.k == fkNilBytes { // every use other than the comparison with nil (funcs_tx.go: nilTest)
+		r = fnVal{s: "go_bytes_of " + v.name, pure: true, ty: fnType{k: fkBytes, ity: "U8"}}
+		if key != nil {
+			r.alias = []interface{}{key}
+		}
+		return r
+	}
+	if v.ty.k == fkPtr && key != nil {
+		if t.inSelector == 0 {
+			v.fresh = false // the pointer itself is used as a value: another name for the struct may exist from here on
+		}
+	}
 	if v.stale {
 		t.fail(n, "%s is read after the storage it shares was overwritten by an append through another variable", v.name)
 	}
@@ -342,6 +374,9 @@ func (t *fnTr) expr(e ast.Expr) fnVal {
 		}
 		t.fail(e, "identifier %s is not a local variable, parameter, constant or sentinel error", x.Name)
 	case *ast.SelectorExpr, *ast.StarExpr:
+		if v, ok := t.txSelector(e); ok {
+			return v
+		}
 		if p, ok := t.fieldPath(e); ok {
 			if v, ok := t.vars[p]; ok {
 				return t.varVal(e, v, nil)
@@ -351,6 +386,9 @@ func (t *fnTr) expr(e ast.Expr) fnVal {
 		t.fail(e, "unsupported selector or dereference")
 	case *ast.UnaryExpr:
 		if x.Op == token.AND {
+			if v, ok := t.structLiteral(x); ok {
+				return v
+			}
 			return t.numLiteral(x)
 		}
 		a := t.expr(x.X)
@@ -383,6 +421,9 @@ func (t *fnTr) expr(e ast.Expr) fnVal {
 			}
 			return fnVal{s: lazyOp + " (" + a.asM() + ") (" + b.s + ")", ty: fnType{k: fkBool}}
 		}
+		if v, ok := t.nilTest(x); ok {
+			return v
+		}
 		a, b := t.expr(x.X), t.expr(x.Y)
 		switch x.Op {
 		case token.EQL, token.NEQ, token.LSS, token.LEQ, token.GTR, token.GEQ:
@@ -408,6 +449,10 @@ func (t *fnTr) expr(e ast.Expr) fnVal {
 		case fkStack: // an item of a stack is a value; it is never "allocated here", so it cannot be written in place
 			return t.seq([]fnVal{a, i}, func(ts []string) fnVal {
 				return fnVal{s: "go_index " + ts[0] + " " + ts[1], ty: fnType{k: fkBytes, ity: "U8"}}
+			})
+		case fkPtrs:
+			return t.seq([]fnVal{a, i}, func(ts []string) fnVal {
+				return fnVal{s: "go_index " + ts[0] + " " + ts[1], ty: fnType{k: fkPtr, sname: a.ty.sname}}
 			})
 		}
 		t.fail(e, "index of a non-slice")
@@ -476,6 +521,9 @@ func (t *fnTr) compare(n ast.Node, op token.Token, a, b fnVal) fnVal {
 		if op == token.EQL {
 			return t.seq([]fnVal{e}, func(ts []string) fnVal { return fnVal{s: "negb " + ts[0], pure: true, ty: boolT} })
 		}
+	}
+	if v, ok := t.ptrNilCompare(op, a, b); ok {
+		return v
 	}
 	if a.ty.k == fkBool && b.ty.k == fkBool && (op == token.EQL || op == token.NEQ) {
 		return t.seq([]fnVal{a, b}, func(ts []string) fnVal {
@@ -642,6 +690,9 @@ func (t *fnTr) call(c *ast.CallExpr) fnVal {
 			return t.builtin(c, id.Name)
 		}
 	}
+	if v, ok := t.txCall(c); ok {
+		return v
+	}
 	if v, ok := t.interpCall(c); ok {
 		return v
 	}
@@ -681,7 +732,7 @@ func (t *fnTr) builtin(c *ast.CallExpr, name string) fnVal {
 	switch name {
 	case "len":
 		a := t.expr(c.Args[0])
-		if a.ty.k != fkBytes && a.ty.k != fkInts && a.ty.k != fkStack {
+		if a.ty.k != fkBytes && a.ty.k != fkInts && a.ty.k != fkStack && a.ty.k != fkPtrs {
 			t.fail(c, "len of a non-slice")
 		}
 		return t.seq([]fnVal{a}, func(ts []string) fnVal {
